@@ -50,9 +50,9 @@ FLOORS = {
     "quick": {"key_runs": 400, "flat_sampler_keys_observed": 2000, "sampler_keys_observed": 2600, "splits_observed": 3800,
               "batch_runs": 700000, "law_tests": 280, "pair_tests": 2800, "equal_draw_tests": 1300, "lag_tests": 100,
               "distinct:nontrivial": 34},
-    "thorough": {"key_runs": 3000, "flat_sampler_keys_observed": 20000, "sampler_keys_observed": 30000, "splits_observed": 30000,
-                 "batch_runs": 20000000, "law_tests": 1500, "pair_tests": 20000, "equal_draw_tests": 10000, "lag_tests": 300,
-                 "distinct:nontrivial": 100},
+    "thorough": {"key_runs": 3900, "flat_sampler_keys_observed": 15000, "sampler_keys_observed": 20000, "splits_observed": 25000,
+                 "batch_runs": 24000000, "law_tests": 1200, "pair_tests": 15000, "equal_draw_tests": 6000, "lag_tests": 300,
+                 "distinct:nontrivial": 120},
 }
 TIMEOUT_S = {"quick": 900, "thorough": 3600}
 FAMILY_ALPHA = 1e-9
